@@ -61,3 +61,9 @@ claim("C20",
       "Static: the only HTTP listener of the node serves accessControlHandler(inner, decision built from cfg.Whitelist/AllowedLan); inside, the inner handler runs only on the true edge of the decision on req.RemoteAddr and the false edge answers 403; gRPC binds a loopback constant; the LAN table evaluates to RFC 1918; every `return true` of the decision function is behind one of the four admitted tests and the lists come only from configuration; api.getBindingTarget is the chain library's construction and is fed (compressed key, default type, bl) / (plot id, chia type, k); the address derives from the same key; no floating point on the amount path.",
       "Trusted: go/ssa, net/http handler semantics, mass-core as the chain library's definition. Exception recorded: the opt-in pprof server on http.DefaultServeMux (verified to carry no API handler). NOT decided: the allow decision for all address spellings, canonical form and round trip of all amounts (values).",
       "DESIGN.md §4 C20")
+
+claim("C16",
+      "table agreement (decoder cases vs MsgType results) + field-crossing cover by name + interprocedural nil-safety of JSON-decoded pointers + error-flow + edge-cut frame bound",
+      "Static: every MsgType constant has a decoder case constructing the type whose MsgType() is that constant, the encoder prefixes the message's own type, the prefix is length-checked before it is read; every wire field is written from and restored into the same-named in-memory field and every in-memory field crosses or is a documented non-wire field; JSON-nullable pointers are nil-tested before any dereference across calls; every decoder error is returned; the frame size is bounded before allocation. Three obligations about pool-contract proofs are a recorded known finding.",
+      "Trusted: go/ssa, encoding/json/uuid/chiapos decoders do not panic. NOT decided: equality after round trip for all values (encoder injectivity, big.Int sign), third-party decoder totality.",
+      "DESIGN.md §4 C16")
